@@ -969,3 +969,7 @@ mod builder {
         );
     }
 }
+
+#[cfg(any(kani, rescrv_blue_verif))]
+#[path = "/verif/hk/sst/log.rs"]
+mod verif_harness;
